@@ -908,7 +908,7 @@ impl Property for C10 {
         let tail_fill = [src.draw(256) as u8, src.draw(256) as u8, src.draw(256) as u8];
         let (w, h) = SIZES[size as usize];
         let fb_box = R::xywh(0, 0, w as i64, h as i64);
-        let n = 1 + src.draw(12);
+        let n = 1 + src.draw(if crate::prop::deep() { 24 } else { 12 });
         let mut steps = Vec::new();
         for si in 0..n {
             let s = match src.draw(10) {
